@@ -78,7 +78,9 @@ var Ops = []Op{
 	{"ToBytes(complete message)", func(s *Shared) string { return fmt.Sprintf("%x", s.Compl.ToBytes()) }},
 	{"Variables(template)", func(s *Shared) string { return strings.Join(s.Tmpl.Variables(), ",") }},
 	{"Size+String(IntNode)", func(s *Shared) string { return fmt.Sprint(s.IntNode.Size(), s.IntNode) }},
-	{"FillVariables(values)", func(s *Shared) string { return fmt.Sprint(s.Tmpl.FillVariables(s.Fill), s.IntNode.FillVariables(s.Fill), s.AVar.FillVariables(s.Fill)) }},
+	{"FillVariables(values)", func(s *Shared) string {
+		return fmt.Sprint(s.Tmpl.FillVariables(s.Fill), s.IntNode.FillVariables(s.Fill), s.AVar.FillVariables(s.Fill))
+	}},
 	{"FillVariables(ellipses)", func(s *Shared) string { r := s.Tmpl.FillVariables(s.EllFill); return fmt.Sprint(r, r.Variables()) }},
 	{"Header+String(incomplete message)", func(s *Shared) string { return s.Incompl.Header() + s.Incompl.String() }},
 	{"SetWaitBit(incomplete message)", func(s *Shared) string { m := s.Incompl.SetWaitBit(true); return m.Header() + m.WaitBit() }},
@@ -86,8 +88,13 @@ var Ops = []Op{
 		m := s.Incompl.SetSessionIDAndSystemBytes(77, []byte{5, 6, 7, 8})
 		return fmt.Sprintf("%d %x %x", m.SessionID(), m.SystemBytes(), m.ToBytes())
 	}},
-	{"SystemBytes+Type(messages)", func(s *Shared) string { return fmt.Sprintf("%x %s %s %x", s.Compl.SystemBytes(), s.Compl.Type(), s.Ctl.Type(), s.Ctl.ToBytes()) }},
-	{"NewListNode(shared children)", func(s *Shared) string { l := ast.NewListNode(s.Child, s.Child, s.IntNode); return fmt.Sprint(l, l.Variables()) }},
+	{"SystemBytes+Type(messages)", func(s *Shared) string {
+		return fmt.Sprintf("%x %s %s %x", s.Compl.SystemBytes(), s.Compl.Type(), s.Ctl.Type(), s.Ctl.ToBytes())
+	}},
+	{"NewListNode(shared children)", func(s *Shared) string {
+		l := ast.NewListNode(s.Child, s.Child, s.IntNode)
+		return fmt.Sprint(l, l.Variables())
+	}},
 	{"sml.Parse(shared text)", func(s *Shared) string { return msgs(sml.Parse(s.Text)) }},
 	{"sml.Parse(other text)", func(s *Shared) string { return msgs(sml.Parse(s.Text2)) }},
 	{"hsms.Parse(shared bytes)", func(s *Shared) string {
